@@ -16,7 +16,7 @@
 //	ret <o> <inp> <tinp> <change> <out> <utxo,utxo,..> [<o2> <other>]   ReturnDepositCoin, real context check; outputs:
 //	                                      change to o's own deposit address, out to an ordinary address, other to producer o2's deposit address
 //	pen <o> <eff> <p>                     IllegalProposalEvidence naming o's node key; eff = producer is Active (oracle value), p = configured penalty
-//	stake <k> <v>                         environment: ExchangeVotes processed
+//	stake <k> <v>                         ExchangeVotes: real CheckTransactionOutput + SpecialContextCheck, then processed
 //	vote <k> <lock> <v,v,..> <bad>        bad = index of the first candidate that is not an active v2 producer, or n (oracle value);
 //	                                      Voting (DPoS v2 content), real context check; candidates = v2 producers 0..n-1
 //	retv <k> <v> [<ver> <other>]          ReturnVotes, real context check (V0: authorised by k, program of another key)
@@ -45,6 +45,7 @@ import (
 	"github.com/elastos/Elastos.ELA/blockchain"
 	"github.com/elastos/Elastos.ELA/common"
 	"github.com/elastos/Elastos.ELA/common/config"
+	"github.com/elastos/Elastos.ELA/core"
 	"github.com/elastos/Elastos.ELA/core/checkpoint"
 	"github.com/elastos/Elastos.ELA/core/contract"
 	"github.com/elastos/Elastos.ELA/core/contract/program"
@@ -243,6 +244,7 @@ func errClass(e error) string {
 		{"DPoSV2 vote rights not enough", "notenough"},
 		{"invalid vote output payload", "cand"},
 		{"invalid return votes value", "small"},
+		{"invalid transaction UTXO output", "value"},
 		{"not found in producer", "novote"},
 		{"votes not equal", "novote"},
 		{"new lock time <= old lock time", "lock"},
@@ -620,14 +622,22 @@ func exec(t []string) string {
 			}
 		}
 		return v
-	case "stake":
+	case "stake": // ExchangeVotes: the real output check (CheckTransactionOutput) decides, then it is processed
 		o := int(i64(t[1]))
 		k := w.stake(o)
 		v := common.Fixed64(i64(t[2]))
 		tx := w.mk(ctypes.ExchangeVotes, 0, &payload.ExchangeVotes{}, nil,
-			[]*ctypes.Output{{ProgramHash: stakeAddr(k), Value: v, Type: ctypes.OTStake, Payload: &outputpayload.ExchangeVotesOutput{StakeAddress: stakeAddr(k)}}}, nil)
+			[]*ctypes.Output{{AssetID: core.ELAAssetID, ProgramHash: *w.params.StakePoolProgramHash, Value: v, Type: ctypes.OTStake,
+				Payload: &outputpayload.ExchangeVotesOutput{StakeAddress: stakeAddr(k)}}},
+			[]*program.Program{{Code: k.code, Parameter: []byte{0}}})
+		if err := tx.CheckTransactionOutput(); err != nil {
+			return "reject " + errClass(err)
+		}
+		if err, _ := tx.SpecialContextCheck(); err != nil {
+			return "reject " + errClass(err)
+		}
 		w.pending = append(w.pending, tx)
-		return "queued"
+		return "accept"
 	case "vote":
 		o := int(i64(t[1]))
 		k := w.stake(o)
